@@ -77,6 +77,14 @@ claim("C06", "other",
       "string-heavy passes (remove_no_print_nodes, remove_absolute_positioned_node, remove_scroll_elements) do not exhaust within the quick budget and are reported INCONCLUSIVE.",
       "SMT-backed symbolic execution (CrossHair/z3) per pass with symbolic node attributes, concrete replay through the parser", "§4 C06")
 
+claim("C03", "other",
+      "Bounded symbolic execution of the magic-word / parser-function dispatch: for every name registered on MagicResolver (taken from the class at run time, 89 today) the arguments "
+      "(0..2 quick / 0..3 thorough; free strings and numerals rendered from symbolic integers in five shapes) are z3 variables; any exception, a loop trip count or an output longer than "
+      "1000+16*len(call) is a candidate. #expr/#ifexpr are additionally driven at token level (tokenizer regex stubbed) so that numbers stay symbolic through the real shunting-yard and "
+      "operator functions. Template universes with arbitrary call graphs (2 / 3 templates) are expanded for the recursion guard. Candidates are replayed as wikitext through the real compiled Expander under CPU/memory limits.",
+      "templ/*.pyx are loaded from source as Python so that they can be traced; the wikitext->node-tree parser (templ/parser.py, scanner.py, pp.py) and #time are outside; template universes are enumerated by the solver and expanded untraced; many cubes of string-heavy functions end INCONCLUSIVE within the quick budget.",
+      "SMT-backed symbolic execution (CrossHair/z3) of the dispatch with symbolic arguments and a work-bound oracle; replay through the compiled expander", "§4 C03")
+
 NA["C02"] = "structure law over the C++ scanner + 20 regex-driven passes: symbolic document shapes degenerate to enumerating concrete documents, no solver-decided bound of interest (DESIGN §5)"
 NA["C07"] = "losslessness is a law about document shapes x pass interactions: word identity, not word content, matters, so nothing in it is solver-relevant; making the shape symbolic degenerates into enumerating concrete documents (measured: the full 58-pass sequence under the tracer costs 0.7-4 s per path and no symbolic value reaches a branch), which is not this technique (DESIGN §4 C07)"
 NA["C08"] = "reportlab / odfpy / pdftk do the essential work (C code, floats, external processes); every input realizes immediately, nothing for a solver to decide (DESIGN §5)"
